@@ -4,7 +4,7 @@
 P="$1"; shift
 BK=$(mktemp -d /tmp/evbk.XXXXXX)
 cp -a /verif/evidence/. "$BK"/
-git -C /repo apply "$P" || { echo "patch does not apply"; rm -rf "$BK"; exit 2; }
+(git -C /repo apply "$P" 2>/dev/null || (cd /repo && patch -p1 -s -F3 < "$P")) || { echo "patch does not apply"; rm -rf "$BK"; exit 2; }
 for prop in "$@"; do
   out=$(cd /verif && ./check "$prop" --tier quick 2>&1); rc=$?
   echo "== $prop exit=$rc"; echo "$out" | grep -E "VIOLATION|Traceback|Error" | head -4
